@@ -722,6 +722,7 @@ func c19ReproStep(hist []c19Op, sig string) func() bool {
 }
 
 func c19(r *engine.Run) {
+	r.RaceWorkload = "wsvc:walletsvc" // supplement: free-running race-detector pass on one shared object (can only add findings)
 	// the crypto layer's paranoia self-checks (re-deriving and re-verifying every generated key) are the
 	// subject of other properties; they cost 6x here
 	cipher.DebugLevel1, cipher.DebugLevel2 = false, false
